@@ -108,7 +108,11 @@ def _doc_xml(d):
     if d.get('nested'):
         k = d['nested']
         nv = vu(d.get('nested_valid_until'))
-        ents = ['<md:EntitiesDescriptor Name="urn:vp:group"%s>%s</md:EntitiesDescriptor>' % (' validUntil="%s"' % nv if nv else '', ''.join(ents[:k]))] + ents[k:]
+        inner = ''.join(ents[:k])
+        if d.get('nested_deep'):
+            # one more level: the dated group holds an undated group that holds the entities
+            inner = '<md:EntitiesDescriptor Name="urn:vp:subgroup">%s</md:EntitiesDescriptor>' % inner
+        ents = ['<md:EntitiesDescriptor Name="urn:vp:group"%s>%s</md:EntitiesDescriptor>' % (' validUntil="%s"' % nv if nv else '', inner)] + ents[k:]
     return '<md:EntitiesDescriptor xmlns:md="%s"%s>%s</md:EntitiesDescriptor>' % (
         MDNS, ' validUntil="%s"' % v if v else '', ''.join(ents))
 
@@ -202,6 +206,7 @@ def federations(thorough):
     # entities inside a nested group of an aggregate
     for v in (None, 'past', 'future'):
         F.append(('nested:idpA+spX|aa:%s' % v, [{'kind': 'multi', 'entities': [E('idpA'), E('spX'), E('aa')], 'nested': 2, 'nested_valid_until': v}]))
+        F.append(('nested-deep:idpA+spX|aa:%s' % v, [{'kind': 'multi', 'entities': [E('idpA'), E('spX'), E('aa')], 'nested': 2, 'nested_valid_until': v, 'nested_deep': True}]))
     F.append(('multi:spX2+idpA', [{'kind': 'multi', 'entities': [E('spX2'), E('idpA')]}]))
     # pairs and triples in one document
     for k in (2, 3):
@@ -485,6 +490,9 @@ def signed_cases():
         for cert in ('absent', 'right', 'wrong'):
             for shape in ('entity', 'entities'):
                 out.append((state, cert, shape))
+                if cert != 'absent' and state != 'unsigned':
+                    # the same through a crypto back end that reports a bad signature by returning False instead of raising
+                    out.append((state, cert, shape + '@XMLSecurity'))
     return out
 
 
@@ -492,6 +500,9 @@ def evaluate_signed(case):
     from saml2_tophat.mdstore import MetaDataFile
     from saml2_tophat.attribute_converter import ac_factory
     state, cert, shape = case
+    backend = None
+    if shape.endswith('@XMLSecurity'):
+        shape, backend = shape.split('@')
     env.Clock.set(env.BASE)
     inner = entity_xml(E('idpA'), standalone=(shape == 'entity'))
     if shape == 'entity':
@@ -511,7 +522,12 @@ def evaluate_signed(case):
     p = os.path.join(TMP[0], 'signed-%s-%s-%s-%d.xml' % (state, cert, shape, os.getpid()))
     with open(p, 'w') as f:
         f.write(x)
-    sec = world.make_sp(TMP[0]).sec
+    if backend:
+        from vp import pyxmlsec_model
+        pyxmlsec_model.install()
+        sec = world.make_sp(TMP[0], top={'crypto_backend': backend}).sec
+    else:
+        sec = world.make_sp(TMP[0]).sec
     kw = {}
     if cert != 'absent':
         kw = dict(cert=world.crt('mdsigner' if cert == 'right' else 'idpB'), security=sec, node_name=node)
@@ -592,7 +608,11 @@ def evaluate_roundtrip(which):
         # one configuration serving several roles, with encryption key pairs: every role's descriptor carries them
         from saml2_tophat.config import Config as _Cfg
         usage = which.split(':')[1]
-        cd = world.idp_config(TMP[0], [], top={'encryption_keypairs': [{'key_file': world.key('spXenc1'), 'cert_file': world.crt('spXenc1')}],
+        enc_key = 'spXenc1'
+        if usage == 'both-same-key':
+            # the entity's one key pair serves for signing and for encryption
+            usage, enc_key = 'both', 'idpA'
+        cd = world.idp_config(TMP[0], [], top={'encryption_keypairs': [{'key_file': world.key(enc_key), 'cert_file': world.crt(enc_key)}],
                                                'metadata_key_usage': usage})
         cd['service']['aa'] = {'endpoints': {'attribute_service': [('https://idpa.example/aa', world.BINDING_SOAP)]}}
         cd['service']['sp'] = {'endpoints': {'assertion_consumer_service': [('https://idpa.example/acs', world.BINDING_HTTP_POST)]}}
@@ -607,7 +627,7 @@ def evaluate_roundtrip(which):
         for role in ('idpsso', 'spsso', 'attribute_authority'):
             ce = [''.join(x.split()) for x in mds.certs(conf.entityid, role, 'encryption')]
             cs = [''.join(x.split()) for x in mds.certs(conf.entityid, role, 'signing')]
-            if usage in ('both', 'encryption') and world.cert_b64('spXenc1') not in ce:
+            if usage in ('both', 'encryption') and world.cert_b64(enc_key) not in ce:
                 bad.append(('encryption-cert-not-round-tripped', role, len(ce)))
             if usage in ('both', 'signing') and world.cert_b64('idpA') not in cs:
                 bad.append(('signing-cert-not-round-tripped', role, len(cs)))
@@ -664,7 +684,7 @@ def run(ctx):
         if bad:
             ctx.violation({'kind': bad.split(':')[0], 'signature_state': case[0], 'loader_cert': case[1], 'shape': case[2]},
                           {'served': served, 'load_returned': r, 'raised': raised})
-    for which in ('sp', 'sp-enc', 'idp', 'sp-indexed:tuples', 'sp-indexed:zero-last', 'sp-indexed:strings', 'sp-indexed:gaps', 'multi-role:both', 'multi-role:encryption', 'multi-role:signing'):
+    for which in ('sp', 'sp-enc', 'idp', 'sp-indexed:tuples', 'sp-indexed:zero-last', 'sp-indexed:strings', 'sp-indexed:gaps', 'multi-role:both', 'multi-role:encryption', 'multi-role:signing', 'multi-role:both-same-key'):
         try:
             w, bad = evaluate_roundtrip(which)
         except NameError:
